@@ -340,6 +340,8 @@ func behaviours(seed uint64) []Behaviour {
 	add("panic-before", clPanicB, 500, probe.Spec{Panic: "before"})
 	add("panic-before-hdr", clPanicB, 500, probe.Spec{Panic: "before", Hdr: [][2]string{{"X-Probe-H", "v"}}})
 	add("panic-before-readbody", clPanicB, 500, probe.Spec{Panic: "before", ReadBody: 1024})
+	add("panic-errabort-before", clPanicB, 500, probe.Spec{Panic: "abort-before"})
+	add("panic-errabort-before-hdr", clPanicB, 500, probe.Spec{Panic: "abort-before", Hdr: [][2]string{{"X-Probe-H", "v"}}})
 	add("panic-after-header", clPanicA, 200, probe.Spec{Code: 200, Panic: "after"})
 	add("panic-after-10", clPanicA, 200, probe.Spec{Writes: w(10), Panic: "after"})
 	add("panic-after-10-flush", clPanicA, 200, probe.Spec{Writes: w(-10), Panic: "after"})
